@@ -98,6 +98,12 @@ def shard(ctx):
             ipaths.append(rel)
             fl[rel] = json.dumps(p) if as_json else "".join("%s: %s\n" % (k, json.dumps(v)) for k, v in p.items())
 
+        if layout == "directory":
+            # files that are not data files live next to the parameter files and must simply be ignored, wherever they sort
+            for stray in rng.sample(["pdir/00_notes.txt", "pdir/e0/README.md", "pdir/.DS_Store", "pdir/e1/a.txt", "pdir/zz.bak", "pdir/e0/.gitkeep"], rng.randint(0, 3)):
+                fl[stray] = "not: [a, parameter, file\n"
+                ctx.res.counts["stray_files_in_param_dir"] += 1
+
         def iargs_for(order):
             if layout == "directory":
                 return ["-i", "{S}/pdir"]
